@@ -227,6 +227,7 @@ def apply(St, op, tag):
         check_ma(res, lambda a, b, j: psik[ckey(a, b)][j], 'psi', Space.Real)
         no_share(res, 'psi')
     elif op.startswith('flip:'):
+        res = None
         which = op.split(':')[1]
         M = getattr(P, which)
         if M.space == Space.Fourier:
@@ -236,3 +237,4 @@ def apply(St, op, tag):
         claim_abstract_state(St, tag + ':post')
     else:
         raise KeyError(op)
+    return res
